@@ -5,7 +5,7 @@ import sys
 import random
 import traceback
 from . import gfi
-from .gfi import Gen, desugar, c_gf, c_val, c_path, c_entries, c_sel, addresses_n, vm_lens
+from .gfi import Gen, desugar, c_gf, c_dgf, c_val, c_path, c_entries, c_sel, addresses_n, vm_lens
 from .core import clist, cz, cbool
 
 ERR = {"AddressReuse": "EAddressReuse", "MissingAddress": "EMissingAddress",
@@ -284,17 +284,17 @@ def make_argdiffs(jargs, changed):
     return tuple(Diff.unknown_change(x) if ch else Diff.no_change(x) for x, ch in zip(jargs, changed))
 
 
-def new_args(rng, case, G):
+def new_args(rng, case, G, cur_args):
     """(args, changed flags): honest tagging — a changed value is always tagged changed, an unchanged one either way"""
     args, changed = [], []
-    for v, t in zip(case["args"], case["argt"]):
+    for v, t in zip(cur_args, case["argt"]):
         mode = rng.random()
         if t == "I" or mode < 0.45:
             args.append(v); changed.append(t != "I" and rng.random() < 0.3)
         else:
             nb = max([len(p[1]) for p in walk(case["core"]) if p[0] == "switch"] + [2])
             nv = G.value(t, nb)
-            args.append(nv); changed.append(True)
+            args.append(nv); changed.append(True if nv != v else rng.random() < 0.5)
     return args, changed
 
 
@@ -470,7 +470,7 @@ def run_case(case):
             if kind in ("index",):
                 nargs, changed = list(cur_args), [False] * len(cur_args)
             else:
-                nargs, changed = new_args(rng, case, G)
+                nargs, changed = new_args(rng, case, G, cur_args)
                 if has(core, ("switch",)):
                     # the switch region: index (and the flag an or_else index is computed from) unchanged and tagged
                     # NoChange (index changes: known finding K19)
@@ -518,6 +518,8 @@ def run_case(case):
                 btr, bw, _, _ = bwd.edit(jax.random.key(bseed), ntr, make_argdiffs(old_jargs, changed))
                 return (observe(btr, case), gfi.from_jax(bw, "S"))
             rb = guarded(do_bwd)
+            if rb[0] == "err" and rb[1] == "ENotSupported" and not ob[2]["flat"]:
+                rb = ("known", "scan-regen-bwd", rb[2])      # Scan.edit_regenerate returns a VectorRequest no edit accepts (K24)
             steps.append({"kind": "bwd", "ei": edit_index, "seed": bseed, "res": rb, "fwd_weight": ob[1], "orig_obs": cur_obs,
                           "req_kind": q[0]})
             cur, cur_obs, cur_args, cur_jargs, cur_ti = ntr, ob[0], nargs, njargs, new_ti
@@ -629,4 +631,4 @@ def shipped_steps(out):
 
 def c_case(case, out):
     steps = shipped_steps(out)
-    return f"({c_gf(case['core'])},\n  {clist(['(' + c_step(s, case, tm, em) + ')' for (_, s, tm, em) in steps])})"
+    return f"({c_dgf(case['prog'])},\n  {clist(['(' + c_step(s, case, tm, em) + ')' for (_, s, tm, em) in steps])})"
